@@ -58,7 +58,11 @@ Fixpoint join (sep : text) (l : list text) : text :=
   match l with [] => [] | [x] => x | x :: r => x ++ sep ++ join sep r end.
 
 (* whitespace: str.strip() for ASCII text; bytes.strip() (and int()) use the smaller set *)
-Definition is_space_str (c : Z) : bool := ((9 <=? c) && (c <=? 13)) || ((28 <=? c) && (c <=? 32)).
+(* str.isspace() of CPython 3.12 (Unicode 15.0): the ASCII controls / blank, and the non-ASCII white space NEL, NBSP, OGHAM SPACE MARK,
+   U+2000..U+200A, LINE / PARAGRAPH SEPARATOR, U+202F, U+205F, U+3000 *)
+Definition uni_space (c : Z) : bool :=
+  (c =? 133) || (c =? 160) || (c =? 5760) || ((8192 <=? c) && (c <=? 8202)) || (c =? 8232) || (c =? 8233) || (c =? 8239) || (c =? 8287) || (c =? 12288).
+Definition is_space_str (c : Z) : bool := ((9 <=? c) && (c <=? 13)) || ((28 <=? c) && (c <=? 32)) || uni_space c.
 Definition is_space_bytes (c : Z) : bool := ((9 <=? c) && (c <=? 13)) || (c =? 32).
 Fixpoint lstrip_by (f : Z -> bool) (t : text) : text :=
   match t with c :: r => if f c then lstrip_by f r else t | [] => [] end.
@@ -89,13 +93,35 @@ Fixpoint digits (t : text) (acc : Z) (prev_digit : bool) : option Z :=
                      match r with d :: _ => if is_digit d then digits r acc false else None | [] => None end
               else None
   end.
-Definition py_int (t : text) : option Z :=
+Definition py_int_ascii (t : text) : option Z :=
   match strip_by is_space_bytes t with
   | [] => None
   | c :: r => if c =? 43 then digits r 0 false
               else if c =? 45 then option_map Z.opp (digits r 0 false)
               else digits (c :: r) 0 false
   end.
+
+(* int(str) first rewrites the text to ASCII (_PyUnicode_TransformDecimalAndSpaceToASCII): code points below 127 stay, non-ASCII white
+   space becomes a blank, every Unicode decimal digit (category Nd: runs of ten code points, listed by their zero) becomes its ASCII
+   digit, anything else becomes '?' (which no number contains) *)
+Definition nd_zeros : list Z :=
+  [1632; 1776; 1984; 2406; 2534; 2662; 2790; 2918; 3046; 3174; 3302; 3430; 3558; 3664; 3792; 3872; 4160; 4240; 6112; 6160; 6470; 6608; 6784;
+   6800; 6992; 7088; 7232; 7248; 42528; 43216; 43264; 43472; 43504; 43600; 44016; 65296; 66720; 68912; 69734; 69872; 69942; 70096; 70384;
+   70736; 70864; 71248; 71360; 71472; 71904; 72016; 72784; 73040; 73120; 73552; 92768; 92864; 93008; 120782; 120792; 120802; 120812;
+   120822; 123200; 123632; 124144; 125264; 130032].
+Definition uni_digit (c : Z) : option Z :=
+  match find (fun z => (z <=? c) && (c <? z + 10)) nd_zeros with Some z => Some (c - z) | None => None end.
+Definition to_ascii_c (c : Z) : Z :=
+  if c <? 127 then c else if uni_space c then 32 else match uni_digit c with Some d => 48 + d | None => 63 end.
+Definition py_int (t : text) : option Z := py_int_ascii (map to_ascii_c t).
+
+(* str.encode(): UTF-8.  A `text` that models a Python str is a list of CODE POINTS; one that models bytes is a list of byte values. *)
+Definition enc_c (c : Z) : text :=
+  if c <? 128 then [c]
+  else if c <? 2048 then [192 + c / 64; 128 + c mod 64]
+  else if c <? 65536 then [224 + c / 4096; 128 + (c / 64) mod 64; 128 + c mod 64]
+  else [240 + c / 262144; 128 + (c / 4096) mod 64; 128 + (c / 64) mod 64; 128 + c mod 64].
+Definition utf8 (t : text) : text := flat_map enc_c t.
 
 (* decimal printing of a non-negative number (str(n)); 20 digits suffice for every number here *)
 Fixpoint dec_f (fuel : nat) (n : Z) : text :=
